@@ -253,9 +253,26 @@ def run_suite(binpath, drv, suite, tier, seed, rundir, tag, prefix_n, max_report
     """harness gen | driver  (streamed).  Returns parsed summary dict."""
     corpus = os.path.join(ROOT, "corpus", "%d.txt" % suite)
     prefix = os.path.join(rundir, "prefix-%d-%s.txt" % (suite, tag))
-    cmd = "%s gen %d %s %d %s | %s %d - %d %s %d" % (binpath, suite, tier, seed, corpus, drv, suite, max_report, prefix, prefix_n)
-    rc, out = sh(["bash", "-o", "pipefail", "-c", "ulimit -s unlimited 2>/dev/null; " + cmd], timeout=timeout)
-    res = dict(rc=rc, cases=[], known=[], summary=None, prefix=prefix, raw_tail=out[-2000:])
+    jpath = os.path.join(rundir, "journal-%d-%s.txt" % (suite, tag))
+    cmd = "VERIF_JOURNAL=%s %s gen %d %s %d %s | %s %d - %d %s %d" % (jpath, binpath, suite, tier, seed, corpus, drv, suite, max_report, prefix, prefix_n)
+    rc, out = sh(["bash", "-o", "pipefail", "-c", "ulimit -s unlimited 2>/dev/null; " + cmd + '; r=("${PIPESTATUS[@]}"); echo "HARNESS_RC ${r[0]}"; exit $(( r[0] > r[1] ? r[0] : r[1] ))'], timeout=timeout)
+    res = dict(rc=rc, cases=[], known=[], summary=None, prefix=prefix, raw_tail=out[-2000:], crash=None)
+    m = re.search(r"^HARNESS_RC (\d+)$", out, re.M)
+    hrc = int(m.group(1)) if m else None
+    if hrc is not None and hrc >= 128 and hrc != 128 + 13 and rc != 124:
+        # the harness process was killed by a signal (not SIGPIPE, not our own timeout): the implementation
+        # aborted the process; the journal names the input it was handling
+        jsuite, jin, repro = suite, "", False
+        try:
+            js, jin = open(jpath).read().split("|", 1)
+            jsuite, jin = int(js), jin.strip()
+        except (OSError, ValueError):
+            pass
+        if jin:
+            # the journalled input counts as the failing input only if it kills a fresh process again
+            rc2, _ = sh([binpath, "run", str(jsuite)], stdin=jin + "\n", timeout=300)
+            repro = rc2 < 0 or rc2 >= 128
+        res["crash"] = dict(rc=hrc, signal=hrc - 128, input=jin if repro else "", suite=jsuite)
     lines = out.splitlines()
     i = 0
     while i < len(lines):
@@ -405,6 +422,16 @@ def check(pid, tier):
                     shutil.copy2(b, myb)
                 r = run_suite(myb, mydrv, suite, tier, seed, rundir, tag, prefix_n)
                 s = r["summary"]
+                if r.get("crash"):
+                    log("[%s] suite %d %s: harness process killed by signal %d" % (pid, suite, tag, r["crash"]["signal"]))
+                    if r["crash"]["input"]:
+                        violations.append(("property", "the implementation aborted the process (signal %d) while handling this input" % r["crash"]["signal"],
+                                           dict(suite=r["crash"]["suite"], build=tag, input=r["crash"]["input"],
+                                                impl="<process aborted, signal %d>" % r["crash"]["signal"], model="")))
+                    else:
+                        violations.append(("tie", "suite %d (%s): the harness process was killed by signal %d and the journalled input does not reproduce it" % (suite, tag, r["crash"]["signal"]),
+                                           dict(suite=suite, build=tag, log=r["raw_tail"])))
+                    continue
                 if s is None:
                     violations.append(("tie", "suite %d (%s) did not complete" % (suite, tag), dict(suite=suite, build=tag, log=r["raw_tail"])))
                     continue
@@ -566,7 +593,7 @@ def replay(path):
                 print(blog)
                 return 1
             rc, out = sh([b, "run", str(suite)], stdin=d["input"] + "\n")
-            outs[profile] = out.strip()
+            outs[profile] = out.strip() if rc in (0, 1) else "%s ; <process aborted, exit status %d> %s" % (d["input"], rc, out.strip()[-300:])
     print("input:          ", short(d["input"], 2000))
     for profile, o in outs.items():
         print("impl (%s): " % profile, short(o.split(";", 1)[1].strip() if ";" in o else o, 2000))
